@@ -39,11 +39,18 @@ Definition create_ns (attrs : list (qname * str)) : list (str * str) := (s_xml, 
 Definition create_attrs (attrs : list (qname * str)) : list (qname * str) :=
   filter (fun a => negb (str_eqb (q_space (fst a)) s_xmlns || str_eqb (q_local (fst a)) s_xmlns)) attrs.
 
-(** a text node, unless it is white space outside the document element *)
+(** outside the document element white space is not part of the document, and neither is a
+    byte order mark (U+FEFF) in front of it *)
+Definition top_ignorable (c : N) : bool := is_xml_ws c || N.eqb c 65279.
+
+(** a text node - which has at least one character (an empty CDATA section on its own is
+    none) - unless it is ignorable text outside the document element *)
 Definition flush (depth : Z) (pending : option str) : list event :=
   match pending with
   | None => []
-  | Some v => if Z.eqb depth 0 && forallb is_xml_ws v then [] else [EvLeaf (LText v)]
+  | Some v =>
+      if (match v with [] => true | _ => false end) || (Z.eqb depth 0 && forallb top_ignorable v)
+      then [] else [EvLeaf (LText v)]
   end.
 
 (** the event stream of the whole token stream; [pending] is the character data read
